@@ -16,6 +16,9 @@ use crate::{
 
 use super::{AttributedChar, BitFont, Palette, SaveOptions, Size};
 
+/// The sixel images of the screen hold at most this many bytes of pixels (four images of the maximum size).
+const MAX_SIXEL_BYTES: usize = 4 * 2048 * 2048 * 4;
+
 #[derive(Clone, Copy, Debug, PartialEq)]
 pub enum BufferType {
     Unicode,
@@ -447,6 +450,11 @@ impl Buffer {
                 }
             }
             vec.push(sixel);
+            // images that only overlap are all kept: bound what piles up, the oldest images go first
+            let mut bytes: usize = vec.iter().map(|s| s.picture_data.len()).sum();
+            while bytes > MAX_SIXEL_BYTES && vec.len() > 1 {
+                bytes -= vec.remove(0).picture_data.len();
+            }
         }
         Ok(updated_sixel)
     }
